@@ -246,8 +246,19 @@ pub fn child(path: &str) -> i32 {
             let (h, done, mode) = (handle.clone(), done.clone(), sc.handle.clone());
             Some(std::thread::spawn(move || {
                 let mut n = 0u64;
+                let mut last_long = std::time::Instant::now();
                 while !done.load(SeqCst) {
                     if mode == "write" {
+                        // now and then the caller sits on the write guard for a while (a slow bulk edit: 15 ms): calls into the
+                        // enforcer wait for it, and must still answer from a state of the write history
+                        if n == 0 || last_long.elapsed() > Duration::from_millis(60) {
+                            let mut g = h.write();
+                            g.add_link("scratch_slow", "scratch_r", None);
+                            std::thread::sleep(Duration::from_millis(15));
+                            let _ = g.delete_link("scratch_slow", "scratch_r", None);
+                            drop(g);
+                            last_long = std::time::Instant::now();
+                        }
                         h.write().add_link("scratch_u", "scratch_r", None);
                         let _ = h.read().has_link("scratch_u", "scratch_r", None);
                         let _ = h.write().delete_link("scratch_u", "scratch_r", None);
